@@ -224,3 +224,30 @@ def shape_tags(asg) -> list[str]:
         if lit["v"] is None or abs(lit["v"]["n"]) > 32767:
             tags.append("big-literal")
     return sorted(set(tags))
+
+
+def terms(e):
+    """Signed sum-of-products expansion: list of lists of leaves/literals (signs dropped)."""
+    if e["k"] in ("T", "L"):
+        return [[e]]
+    if e["k"] in "+-":
+        return terms(e["l"]) + terms(e["r"])
+    return [a + b for a in terms(e["l"]) for b in terms(e["r"])]
+
+
+def sparse_only_indexes(asg, formats: dict) -> list[str]:
+    """Harness-side candidate filter mirroring TensorAlgebra!SparseOnlyIndex (the spec decides applicability)."""
+    def mode_of_dim(fmt: str, d: int) -> str:
+        modes = [c for c in fmt if c in "ds"]
+        digits = [int(c) for c in fmt if c.isdigit()] or list(range(len(modes)))
+        return modes[digits.index(d)]
+
+    out = []
+    all_idx = list(dict.fromkeys(list(asg["tidx"]) + [i for lf in leaves(asg["rhs"]) for i in lf["idx"]]))
+    for x in all_idx:
+        ok = all(mode_of_dim(formats[lf["name"]], d) == "s" for lf in leaves(asg["rhs"]) for d, i in enumerate(lf["idx"]) if i == x)
+        ok = ok and all(mode_of_dim(formats[asg["target"]], d) == "s" for d, i in enumerate(asg["tidx"]) if i == x)
+        ok = ok and all(any(f["k"] == "T" and x in f["idx"] for f in t) for t in terms(asg["rhs"]))
+        if ok:
+            out.append(x)
+    return out
